@@ -78,8 +78,9 @@ class Analysis:
         return self.run(f"{CLS}.{name}", mode)
 
     def impl(self, name, cls=CLS):
-        """the function that holds the logic of a public method: the method itself, or - when its whole body is
-        `return self._x(<its own parameters>)` - that helper (followed transitively)"""
+        """the function that holds the logic of a method: the method itself, or - when its whole body is
+        `return self._x(<its own parameters>)` / `return module_function(<its own parameters>, <constants>)` - that
+        function (followed transitively)"""
         f = self.p.func(f"{cls}.{name}")
         seen = set()
         while f.qual not in seen:
@@ -88,12 +89,15 @@ class Analysis:
             if len(body) != 1 or not isinstance(body[0], (ast.Return, ast.Expr)) or not isinstance(body[0].value, ast.Call):
                 break
             c = body[0].value
-            if not (isinstance(c.func, ast.Attribute) and isinstance(c.func.value, ast.Name) and c.func.value.id == "self"):
-                break
-            g = self.p.method(f.cls, c.func.attr)
-            params = [a.arg for a in f.node.args.args[1:]]
+            g = None
+            if isinstance(c.func, ast.Attribute) and isinstance(c.func.value, ast.Name) and c.func.value.id in ("self", "cls", f.cls or ""):
+                g = self.p.method(f.cls, c.func.attr)
+            elif isinstance(c.func, ast.Name) and c.func.id in self.p.funcs and "." not in c.func.id:
+                g = self.p.funcs[c.func.id]
+            params = [a.arg for a in f.node.args.args if a.arg not in ("self", "cls")]
             passed = [a.id for a in c.args if isinstance(a, ast.Name)] + [k.value.id for k in c.keywords if isinstance(k.value, ast.Name)]
-            if g is None or sorted(passed) != sorted(params):
+            others = [a for a in c.args if not isinstance(a, ast.Name)] + [k.value for k in c.keywords if not isinstance(k.value, ast.Name)]
+            if g is None or sorted(passed) != sorted(params) or not all(isinstance(o, ast.Constant) for o in others):
                 break
             f = g
         return f
